@@ -817,17 +817,13 @@ FormatterToHTML::writeAttrString(
                         {
                             throwInvalidUTF16SurrogateException(ch, next, getMemoryManager());
                         }
-
-                        next = XalanDOMChar(((ch - 0xd800) << 10) + next -0xdc00 + 0x00010000);
                     }
 
-                    accumContent(XalanUnicode::charAmpersand);
-                    accumContent(XalanUnicode::charNumberSign);
+                    // The code point does not fit into a XalanDOMChar.
+                    const XalanUnicodeChar  theCodePoint =
+                        ((XalanUnicodeChar(ch) - 0xd800u) << 10) + next - 0xdc00u + 0x00010000u;
 
-                    accumContent(NumberToDOMString(next, m_stringBuffer));
-                    m_stringBuffer.clear();
-
-                    accumContent(XalanUnicode::charSemicolon);
+                    writeNumberedEntityReference(theCodePoint);
                 }
                 else
                 {
@@ -1039,15 +1035,22 @@ FormatterToHTML::writeAttrURI(
             {
                 accumContent(ch);
             }
+            else if (0xd800u <= ch && ch < 0xdc00u &&
+                     i + 1 < theStringLength &&
+                     0xdc00u <= theString[i + 1] && theString[i + 1] < 0xe000u)
+            {
+                // A surrogate pair is one character reference, not two
+                // references to surrogate code points.
+                const XalanUnicodeChar  theCodePoint =
+                    ((XalanUnicodeChar(ch) - 0xd800u) << 10) + theString[i + 1] - 0xdc00u + 0x00010000u;
+
+                ++i;
+
+                writeNumberedEntityReference(theCodePoint);
+            }
             else
             {
-                accumContent(XalanUnicode::charAmpersand);
-                accumContent(XalanUnicode::charNumberSign);
-    
-                accumContent(NumberToDOMString(ch, m_stringBuffer));
-                m_stringBuffer.clear();
-
-                accumContent(XalanUnicode::charSemicolon);
+                writeNumberedEntityReference(ch);
             }
         }
         // Since http://www.ietf.org/rfc/rfc2396.txt refers to the URI grammar as
